@@ -92,13 +92,15 @@ def main():
                 verdicts[p] = {"verdict": v, "detail": detail}
     result["non_holding"] = verdicts
     print(json.dumps(result, indent=1))
-    if "--keep" in sys.argv and ok and ov is not None:
+    if "--force-keep" in sys.argv and ov is not None and result["suite_with"]["exit"] == 0 and result["suite_with"]["passed"] >= 287:
+        ok = True  # kept although a check test of the agent pins behaviour that a later fix: commit changed (see meta note)
+    if ("--keep" in sys.argv or "--force-keep" in sys.argv) and ok and ov is not None:
         dst = os.path.join(VERIF, "twins", tid)
         os.makedirs(dst, exist_ok=True)
         shutil.copy(diff, os.path.join(dst, "patch.diff"))
         if os.path.exists(test):
             shutil.copy(test, os.path.join(dst, os.path.basename(test)))
-        json.dump({"id": tid, "about_property": prop, "source": "independent sub-agent asked for a behaviour-preserving refactoring" if tag == "r" else "independent sub-agent asked for a realistic property-preserving evolution (feature / hardening / logging / performance change)", "suite_with": result["suite_with"], "check_with": result.get("check_with"), "check_without": result.get("check_without")}, open(os.path.join(dst, "meta.json"), "w"), indent=1)
+        json.dump({"id": tid, "about_property": prop, "source": "independent sub-agent asked for a behaviour-preserving refactoring" if tag == "r" else "independent sub-agent asked for three substantial behaviour-preserving refactorings of one region of the package (module-level campaign)" if tag == "x" else "independent sub-agent asked for a realistic property-preserving evolution (feature / hardening / logging / performance change)", "suite_with": result["suite_with"], "check_with": result.get("check_with"), "check_without": result.get("check_without")}, open(os.path.join(dst, "meta.json"), "w"), indent=1)
     return 0
 
 
